@@ -118,6 +118,11 @@ class ScriptedPeer(object):
             self.sock.close()
             self.closed = True
             raise Disconnect()
+        elif out in ('5x', '4x'):
+            # an ordinary failure code whose text starts with a status-code look-alike of a class that does not exist
+            code, lines = ('550', ['0.0.0 odd status at %s%s' % (stage, self._tag())]) if out == '5x' else ('451', ['7.1.1 odd status at %s%s' % (stage, self._tag())])
+            self._send(self._format(code, lines))
+            return out[0]
         elif out == '500':
             code, lines = '500', ['5.5.2 command not recognized']
         elif out == '421':
